@@ -35,13 +35,13 @@ func init() {
 	c18 := mk("nats", "at least one request was completed by the adapter and compared with the reference outcome")
 	c18.Quick, c18.Thorough = 30000, 600000
 	planTable["C18"] = c18
-	c11 := mk("core,access,throttle", "a client connection was closed while the gateway held state for it (requests crossed the seam on its behalf before the close)")
+	c11 := mk("core,access,throttle,locks", "a client connection was closed while the gateway held state for it (requests crossed the seam on its behalf before the close)")
 	c11.Level, c11.Enum, c11.EnumBase = "fault_enumeration", "disconnect", [2]int{150, 5000}
 	c11.Quick, c11.Thorough = 6000, 150000
 	planTable["C11"] = c11
 	c20 := mk("stop", "Stop was called or the messaging connection was lost while at least one client connection was open, and the stop was driven to completion")
 	c20.Level, c20.Enum, c20.EnumBase = "fault_enumeration", "stop", [2]int{60, 2500}
-	c20.EnumProfiles = []string{"core", "throttle"}
+	c20.EnumProfiles = []string{"core", "throttle", "locks"}
 	c20.Quick, c20.Thorough = 12000, 300000
 	planTable["C20"] = c20
 	for k, p := range planTable {
